@@ -37,6 +37,51 @@ def chain_names(interp, sf):
     return out
 
 
+def rule_translation_needs_call(ctx, rid, rr):
+    """run translates the engine's carrier as CallError(e.node), and CallError reads .fn / .stack_frame of a Call.  Every
+    user-reaching operation that the callbacks perform for a node must therefore be performed for Call nodes only -
+    or the translation must be guarded.  (A registered Literal is examined by the stale check like any other node.)"""
+    m = ctx.model
+    run = rr.run
+    unguarded = []
+    for h in [n for n in run.own_nodes() if isinstance(n, ast.ExceptHandler) and h_names(n) & {"NodeError"}]:
+        for c in [x for x in ast.walk(h) if isinstance(x, ast.Call) and norm(x.func) == "CallError"]:
+            conds = E.path_condition(run.module, stmt_of(run.module, c), h)
+            if not any("Call" in norm(t) for t, pol in conds):
+                unguarded.append(c)
+    if not unguarded:
+        ctx.ob(rid, "RUN/translation-needs-call", True, loc(run), "the translation to CallError is guarded by a Call test")
+        return
+    # can a non-Call node reach a store query in the stale callback?
+    cb = rr.stalecb
+    reach_q = set()
+    for f in m.funcs.values():
+        if any(isinstance(n, ast.Attribute) and n.attr == "get_modified_time" for n in f.own_nodes()):
+            reach_q.add(f)
+    bad = None
+    for t in [n for n in cb.own_nodes() if isinstance(n, ast.If)]:
+        tt, pol = E._positive(t.test, True)
+        if norm(tt) == f"type({cb.pos_params[0]}) is Call":
+            other = t.orelse if pol else t.body
+            for st in other:
+                for x in ast.walk(st):
+                    if isinstance(x, ast.Attribute) and x.attr == "get_modified_time":
+                        bad = x
+                    if isinstance(x, ast.Call) and x in cb.own_calls():
+                        if m.reachable(list(m.callee_funcs(cb, x)), kinds=("call",)) & reach_q or m.callee_funcs(cb, x) & reach_q:
+                            bad = x
+    ctx.ob(rid, "RUN/translation-needs-call", bad is None, loc(cb, bad) if bad is not None else loc(run),
+           "only Call nodes reach user code in the callbacks, so the carrier always names a Call" if bad is None else
+           "the stale check queries the store of a node that is not a Call (a registered Literal) outside the Call-only error "
+           "wrapper: when that query fails the engine's carrier names the Literal, and run's `CallError(e.node)` raises "
+           "AttributeError ('Literal' object has no attribute 'fn') instead of reporting the failure", "")
+
+
+def h_names(h):
+    from ..astq import handler_classes
+    return set(handler_classes(h))
+
+
 def check(ctx):
     m = ctx.model
     ctx.rule("C19.S1", "capture sites: get_stack_frame() is called in the own scope of public Plan/Registry methods (no nested scope, no decorator adding a frame), with the default depth; get_stack_frame performs exactly that many f_back hops unconditionally, builds every frame from the live frame objects and keeps no state between calls (evaluated on stub frame chains of 3..10 frames)")
@@ -207,6 +252,7 @@ def check(ctx):
     ctx.obligations[:] = [o for o in ctx.obligations if o["rule"] != "C19.S3x"]
     # ---------------------------------------------------------------- S4
     ctx.run(R.rule_cause_chain, "C19.S4", rr)
+    ctx.run(rule_translation_needs_call, "C19.S4", rr)
     ce = m.one_class("CallError", "S4")
     init = ce.methods["__init__"]
     ok = any("render_symbolic_traceback(call.stack_frame)" in norm(n) for n in init.own_nodes() if isinstance(n, ast.Call)) and \
